@@ -28,7 +28,7 @@ TypeOK ==
              "x_close2", "x_exit", "x_raise", "x_died"} \cup Terminal
   /\ cur \in 1..(cfg.nf + 1)
   /\ src \in [Files -> St3] /\ dst \in [Files -> Dt4]
-  /\ exitStatus \in 0..2 /\ abortW \in 0..2 /\ nfault \in 0..MaxFaults /\ nsig \in 0..MaxSigs
+  /\ exitStatus \in 0..2 /\ abortW \in 0..3 /\ nfault \in 0..MaxFaults /\ nsig \in 0..MaxSigs
   /\ exitSignal \in Sigs \cup {"none"} /\ sigPending \in Sigs \cup {"none"}
 
 (* ---- the contract (property C17), stated on the options, not on the model's helper operators ---- *)
